@@ -63,3 +63,19 @@ def ideal (lim total : Nat) : List Nat :=
   List.replicate (total / lim) lim ++ (if total % lim > 0 then [total % lim] else [])
 
 end LzmaVerif.Split
+
+namespace LzmaVerif.Split
+
+/-- `LZMAWriter` with an expected uncompressed size: `write` refuses to go beyond it
+    (`exp < current + buf.len()`), `finish` refuses to stop short of it -/
+inductive SizeOutcome where
+  | ok (written : Nat)       -- finish succeeded; the header announced `written` bytes
+  | errWrite (call : Nat)    -- write call number `call` (0-based) was refused
+  | errFinish
+deriving DecidableEq, Repr
+
+def expectedRun (exp : Nat) : List Nat → Nat → Nat → SizeOutcome
+  | [], cur, _ => if exp = cur then .ok cur else .errFinish
+  | n :: rest, cur, i => if exp < cur + n then .errWrite i else expectedRun exp rest (cur + n) (i + 1)
+
+end LzmaVerif.Split
